@@ -394,6 +394,39 @@ class _Canon(ast.NodeTransformer):
                 q_.append(self.visit(loop))
                 q_.append(tail)
                 continue
+            # S37 `return reduce(operator.mul, <iterable>, init)` -> acc = init; for x in <iterable>: acc *= x; return acc
+            # (reduce applies mul(acc, x) left to right starting from init: the same sequence of float products)
+            if isinstance(v, ast.Call) and U(v.func) in ('reduce', 'functools.reduce') and len(v.args) == 3 and not v.keywords \
+                    and U(st) not in self.stmt_set and any(t_.split(' ')[1:2] == ['*='] for t_ in self.stmts) and \
+                    (U(v.args[0]) in ('operator.mul', 'mul') or (
+                        isinstance(v.args[0], ast.Lambda) and len(v.args[0].args.args) == 2 and isinstance(v.args[0].body, ast.BinOp)
+                        and isinstance(v.args[0].body.op, ast.Mult) and U(v.args[0].body.left) == v.args[0].args.args[0].arg
+                        and U(v.args[0].body.right) == v.args[0].args.args[1].arg)):
+                it = v.args[1]
+                acc = '_acc'
+                if isinstance(it, ast.Name):
+                    # the iterable bound to a name just for this call: a generator / list used nowhere else
+                    uses = sum(1 for s2 in out for x_ in ast.walk(s2) if isinstance(x_, ast.Name) and x_.id == it.id and isinstance(x_.ctx, ast.Load))
+                    defs = [s2 for s2 in q_ if isinstance(s2, ast.Assign) and len(s2.targets) == 1 and isinstance(s2.targets[0], ast.Name)
+                            and s2.targets[0].id == it.id]
+                    if uses == 1 and len(defs) == 1 and isinstance(defs[0].value, (ast.GeneratorExp, ast.ListComp)) \
+                            and sum(1 for s2 in out for x_ in ast.walk(s2) if isinstance(x_, ast.Name) and x_.id == it.id and isinstance(x_.ctx, ast.Store)) == 1:
+                        q_.remove(defs[0])
+                        it = defs[0].value
+                if isinstance(it, (ast.GeneratorExp, ast.ListComp)) and len(it.generators) == 1 and not it.generators[0].ifs:
+                    tgt_, src_, elt_ = it.generators[0].target, it.generators[0].iter, it.elt
+                else:
+                    tgt_, src_, elt_ = ast.Name(id='_factor', ctx=ast.Store()), it, ast.Name(id='_factor', ctx=ast.Load())
+                init = ast.Assign(targets=[ast.Name(id=acc, ctx=ast.Store())], value=v.args[2])
+                upd = ast.AugAssign(target=ast.Name(id=acc, ctx=ast.Store()), op=ast.Mult(), value=elt_)
+                loop = ast.For(target=tgt_, iter=src_, body=[upd], orelse=[])
+                tail = ast.Return(value=ast.Name(id=acc, ctx=ast.Load()))
+                for x_ in (init, loop, tail):
+                    _relocate(x_, st)
+                self.steps.append('S37 ' + U(st)[:60])
+                self.loaded = set(self.loaded) | {acc, '_factor'}
+                q_.extend([init, loop, tail])
+                continue
             q_.append(st)
         out = q_
         # S15 / S16 comprehension and conditional-expression statements the reference does not have
